@@ -119,7 +119,14 @@ struct Case {
     void heldKeepFunction() {
         for (auto& h : pool) {
             emit("input %s %s", h.name.c_str(), tableStr(h.t).c_str());
-            emitTable(h.name, fs[size_t(h.f)].name, D, h.e);
+            try {
+                std::vector<Val> now = tableOf(D, h.e);
+                emit("table %s %s %s", h.name.c_str(), fs[size_t(h.f)].name.c_str(), tableStr(now).c_str());
+                if (now != h.t) markSuspect();
+            } catch (error& e) {
+                emit("expect evaluate.%s ok %s", h.name.c_str(), errName(e));
+                markSuspect();
+            }
         }
     }
     void housekeeping() {
@@ -138,12 +145,18 @@ struct Case {
         auditAll();
         pool.clear();
         for (auto& f : fs) f.F->removeAllComputeTableEntries();
-        for (auto& f : fs) emit("expect leak-%s 0 %ld", f.name.c_str(), f.F->getCurrentNumNodes());
+        for (auto& f : fs) {
+            emit("expect leak-%s 0 %ld", f.name.c_str(), f.F->getCurrentNumNodes());
+            if (f.F->getCurrentNumNodes() != 0) markSuspect();
+        }
     }
 };
 
 int run(const Args& A) {
     libInit();
+    // --screen N: see common.h (SCREENING): suspicious = a recount / view / unique-table mismatch in any dump, a leak at
+    // the end, a held edge that changed its function or cannot be evaluated, a crash
+    if (A.getl("screen", 0) > 0) { SCREEN().on = true; SCREEN().sampleEvery = A.getl("screen", 0); screenInstallCrashFlush(); }
     long ncases = A.cases > 0 ? A.cases : (A.thorough() ? 3000 : 500);
     for (long c = 0; c < ncases; c++) {
         if (!A.selected(c)) continue;
@@ -286,6 +299,10 @@ int run(const Args& A) {
         endCase();
         for (auto& f : C.fs) forest::destroy(f.F);
         D.destroy();
+    }
+    if (SCREEN().on) {
+        emit("note screening kept %ld dropped %ld suspects %ld", SCREEN().kept, SCREEN().dropped, SCREEN().suspects);
+        STATS.hit("screen.kept", SCREEN().kept); STATS.hit("screen.dropped", SCREEN().dropped); STATS.hit("screen.suspects", SCREEN().suspects);
     }
     libCleanup();
     return 0;
